@@ -11,6 +11,9 @@ var All = map[string]func(tier string) int{
 	"C06": C06,
 	"C07": C07,
 	"C08": C08,
+	"C11": C11,
 	"C12": C12,
+	"C16": C16,
+	"C18": C18,
 	"C19": C19,
 }
